@@ -211,5 +211,5 @@ ASSUMPTIONS = ['evaluators and scopes are opaque (R8e, R11 stubs); ItemDefinitio
 BOUNDED = {'C11': [{'name': 'typed-inputs-and-outputs-differential', 'script': 'typeddiff.py', 'args': [],
                     'functions': ['build_variable_evaluator, information_item_type, the item definition evaluators of every kind (model-evaluator builders)', 'output coercion in decision.rs / decision_service.rs / FeelType::coerced'],
                     'bound': 'one generated model: for each of the 8 simple types an input of that type, of a collection of it, and decisions whose output variable has that type / that collection type, fed with a value of each of the '
-                             '8 kinds (plain, singleton list, pair), null and the empty list; a component type, a collection of components, an item definition with allowed values and a reference to it; a singleton list given for each simple-typed input; 128 decision services (output variable of each type / collection type over an untyped output decision of each kind); ten knowledge models WITHOUT parameters whose typed result is wrapped / unwrapped / replaced by null, answered by name and called from decision logic: 875 results against the '
+                             '8 kinds (plain, singleton list, pair), null and the empty list; a component type, a collection of components, an item definition with allowed values and a reference to it; a singleton list given for each simple-typed input; 128 decision services (output variable of each type / collection type over an untyped output decision of each kind); ten knowledge models WITHOUT parameters whose typed result is wrapped / unwrapped / replaced by null, answered by name and called from decision logic; a component-typed result with an additional entry whose name sorts before / between the declared components: 879 results against the '
                              'property (conforming value unchanged, otherwise null - for components only the offending component; outputs unwrapped from / wrapped into a singleton list)'}]}
